@@ -2,13 +2,15 @@
 import importlib, json, os
 from .common import VERIF
 
-CLAIMED = ["c02", "c03", "c04", "c05", "c07", "c09", "c10", "c11", "c13", "c15", "c16", "c17", "c18", "c19"]
+CLAIMED = ["c02", "c03", "c04", "c05", "c07", "c09", "c10", "c11", "c13", "c14", "c15", "c16", "c17", "c18", "c19"]
 
 LEVEL_TEXT_EXTRA = {
     "C03": ("Bounded model checking of two of the five parsers: the WebSocket frame decoder on every byte string of 0..16 bytes (every header, every claimed length up to 2^64-1, whole delivery; other read plans under C10) returns a value or an error and never panics, overflows or exceeds its loop bounds, and never requests more payload memory than 64 KiB beyond the input (allocation recorder under Kani, tracking allocator in the native replay); the Base64 decoder on every ASCII string of 0..9 symbols and on strings with a 2-byte character never panics. The HTTP request/response parsers and message assembly are NOT decided (not encodable / out of memory); JSON and the configuration parser are covered only as far as C13/C15 say.",
             "Trusted: Kani/CBMC; reference models refs/ws.rs and refs/b64.rs; the from_elem recorder stub."),
     "C13": ("Symbolic execution of the MIR of the recursive-descent JSON parser (Value::parse and every Parser method, recursion inlined) on inputs of 0..5 characters (thorough: 6) over ALL Unicode scalar values: z3 shows that the parser never panics and that it accepts a string if and only if it is an RFC 8259 JSON text (recogniser written as formulas over the same characters); the depth-limit logic is checked through parse_max_depth with limits 0 and 1. The executor is validated on every run against the natively compiled parser on 281 documents; counterexamples are replayed natively and judged by an independent reference parser. NOT decided: documents longer than the bound (two-member objects, \\u escapes), the value tree and member order, numeric values, the serialiser and the round trip.",
             "Trusted: the MIR executor and its std models (f64::from_str as its documented grammar, u16::from_str_radix, char::from_u32, decode_utf16, Peekable<Chars>, String/Vec), z3, the RFC 8259 recogniser in vlib/props/c13.py."),
+    "C14": ("Bounded model checking over a fixed family of programs compiled from the current macro and derive sources: six json! literals with null in every position, nested arrays/objects and a trailing comma equal the hand-built values for all leaf values; derive(FromJson, IntoJson) on a named struct (rename, Option, nested struct), a unit-variant enum (rename), a tuple struct, and json_map! produce the documented shapes and round-trip for all field values; u8..u32/i8..i32 survive the f64 representation for every value, u64/i64 up to 2^53 (beyond: recorded finding). The quantifier over generated programs is not reachable (macro expansion is compile time).",
+            "Trusted: Kani/CBMC incl. its floating-point model; the hand-built expected values in kani/src/c14.rs."),
     "C15": ("Symbolic execution of the MIR of config::tree::parse_size (the K/M/G size kernel of the configuration loader): for every value token of 1..6 characters plus 11, 12 and 20 characters (thorough: 1..21) over ALL Unicode scalar values that can occur in a token, z3 shows no panic (string slicing on a char boundary, no arithmetic overflow), acceptance exactly for <integer>[KMG] whose product fits i64, and value = integer * 1024^j. Counterexamples are embedded in a configuration file and replayed through the public parse_conf in debug and release builds. Everything else in C15 (sections, hosts, routes, includes, defaults, layout independence, Config::from_tree) is NOT decided.",
             "Trusted: the MIR executor and its std models (i64::from_str as its documented grammar, str slicing with char-boundary checks), z3; the caller's precondition that i64 literals never reach parse_size."),
     "C19": ("Bounded model checking of the real file/directory/redirect/proxy handlers and of the connection condition with a directly constructed request: for every origin address that is on a blacklist of 1-2 symbolic IPv4 (or IPv6 ::a:b) entries, in either mode and with the cache on or off, the response is 403 with the fixed body and neither the cache, the file system nor the upstream is reached (they are replaced by markers that fail the proof when reachable); an unlisted origin on a redirect route is served; verify_connection refuses exactly the listed peers in block mode. Socket-level behaviour, X-Forwarded-For derivation and the 'served normally' direction for file/proxy routes are outside.",
